@@ -1,6 +1,6 @@
 CONSTANTS
   Groups = {"data", "open", "ns", "pipe"}
-  Drivers = {"iour", "poll", "iour_blk"}
+  Drivers = {"iour", "poll"}
   MaxOps = 4
   InitFiles <- Init_One
   Offsets <- Off_Narrow
@@ -13,7 +13,7 @@ CONSTANTS
   PlainData = {"sync_data", "metadata"}
   CurBufs <- RB_Cur
   CurWBufs <- WB_Cur
-  AppendModes = {FALSE, TRUE}
+  AppendModes = {FALSE}
   OpenOpts <- Opts_Mid
   OpenPaths = {"f"}
   OpenData = {"read_at", "write_at", "metadata", "set_len"}
